@@ -150,3 +150,15 @@ def _bip32():
 def _wire():
     from dsim.models import wire
     wire.kat()
+
+
+@register("sighash-model", ["C04", "C05", "C06"])
+def _sighash():
+    from dsim.models import sighash
+    sighash.kat()
+
+
+@register("stdvalidate-model", ["C05", "C06", "C04"])
+def _stdvalidate():
+    from dsim.models import stdvalidate
+    stdvalidate.kat()
